@@ -227,7 +227,7 @@ def _run_path(res, cfg):
         cs = smt.Solver(stats=smt.Stats()); cs.keep_sample = False
         cs.box = dict(solver.box)
         v, m = cs.decide(Poly.var(int(gids.reshape(-1)[0])) * Fraction(1, 100), tau, grid_bits=48)
-        if v != 'sat':
+        if v == 'unsat':
             res.status = 'error'; res.trace = 'canary query was not refuted (%s)' % v; return res
     res.stats = st
     if sats:
